@@ -412,6 +412,7 @@ func (p *Plugin) processMask(event *pipeline.Event, curNode *insaneJSON.Node, fm
 	locApplied := false
 	maskApplied := false
 	shouldUpdateValue := false
+	valueCopied := false
 	value := curNode.AsBytes()
 	if len(value) == 0 { // no need to check empty value
 		return false
@@ -449,9 +450,11 @@ func (p *Plugin) processMask(event *pipeline.Event, curNode *insaneJSON.Node, fm
 		}
 		shouldApplyMask := mask.Re != "" && len(mask.Groups) > 0
 		if shouldApplyMask {
-			if len(p.sourceBuf) == 0 {
+			if !valueCopied {
 				// copy node value to process in mask only once when required
+				// (an empty sourceBuf may be the result of a mask that cut the whole value)
 				p.sourceBuf = append(p.sourceBuf[:0], value...)
+				valueCopied = true
 			}
 			// check value for mask application and apply mask if it matches
 			// maskBuf is used for allocation optimization, we cannot use only sourceBuf
